@@ -1,10 +1,33 @@
-"""C18 bounded stand-in: get_context / parent() / full_name on nested programs vs the lexical nesting computed with ast."""
+"""C18 bounded stand-in: get_context / parent() / full_name vs the lexical nesting and the run-time names.
+
+Inputs   seeded random PROJECTS (several modules in random directory layouts: top level modules, regular packages,
+         __init__.py itself, implicit namespace directories, mixtures, names spelled like stdlib alias keys), each module
+         a random program (nested classes / functions / async functions / lambdas / comprehensions / decorated
+         definitions / properties / inheritance / cross module imports / odd layouts), the two hand written modules of
+         the first version, and corpus files of the tree under test (jedi/**/*.py, test/completion/*.py).
+Oracles  lexical nesting: Python's own ast + tokenize;  names: the real import system in a child interpreter with
+         sys.path = [project root], __name__ / __module__ / __qualname__ of the live objects.
+Checked  every NAME token: get_context;  every Name that denotes a definition of a modelled module, whatever the route it
+         was obtained by (get_names, get_context, parent(), defined_names, Name.infer/goto, Script.infer/goto at
+         identifier positions, complete after dots, get_references): parent() chain and full_name.
+"""
 import ast
+import glob
+import io
+import json
+import keyword
+import multiprocessing
 import os
+import random
 import shutil
+import subprocess
+import sys
 import tempfile
+import tokenize
 import traceback
 
+# ----------------------------------------------------------------------------------------------------------------------
+# the two hand written modules of the first version (kept: regression inputs of the seeded changes it caught)
 MODULES = [
     ('pkg/mod.py',
      'import os\n\nclass A:\n    x = [i * 2 for i in range(3) if i]\n    class B:\n        y = 1\n        class C:\n'
@@ -17,121 +40,1441 @@ MODULES = [
      '    def _functools(self):\n        thing = 2\n        return thing\n\ndef posixpath():\n    v = 1\n    return v\n'),
 ]
 
+L_MISSING = 'definition not reported by get_names'
+L_CHAIN = 'parent() chain is not the lexically enclosing definitions'
+L_FULL = 'full_name is not module path + __qualname__'
+L_RAISED = 'parent/full_name raised'
+L_CTX = 'get_context is not the innermost enclosing function/class'
+L_CTX_RAISED = 'get_context raised'
+L_MODNAME = 'module Name at the top of a parent() chain is not the importable dotted name'
 
-def analyse(code):
-    tree = ast.parse(code)
-    parents = {}
-    for n in ast.walk(tree):
-        for ch in ast.iter_child_nodes(n):
-            parents[ch] = n
-    defs = [n for n in ast.walk(tree) if isinstance(n, (ast.FunctionDef, ast.ClassDef))]
+# input classes with a label of their own (the class is decided from the INPUT only, see Model.position_class)
+CLASS_SUFFIX = {
+    'plain': '',
+    'async-col': ' [body of an async def, column not right of its def keyword]',
+    'dedent': ' [continuation line at or left of the column of the enclosing def/class keyword]',
+    'class-lambda': ' [inside a lambda written at class level]',
+}
 
-    def chain(n):
-        """enclosing defs, outermost first, for a node that lies in the BODY of each"""
-        out = []
-        cur = n
-        while cur in parents:
-            par = parents[cur]
-            if isinstance(par, (ast.FunctionDef, ast.ClassDef)):
-                if cur in par.body:
-                    out.append(par)
+ALIAS_KEYS = ['posix', '_io', 'genericpath', '_socket', '_functools', 'posixpath', 'ntpath', '_collections',
+              '_sqlite3', 'nt']
+
+
+# ----------------------------------------------------------------------------------------------------------------------
+class HarnessError(Exception):
+    """a defect of this file or of its oracles; never turned into a violation"""
+
+
+# the model of one source file: ast + tokenize only
+class Def:
+    __slots__ = ('node', 'kind', 'name', 'name_pos', 'stmt_pos', 'kw_pos', 'first_pos', 'body_first', 'body_end',
+                 'is_async', 'params', 'chain')
+
+
+class Model:
+    def __init__(self, code):
+        self.code = code
+        self.tree = ast.parse(code)
+        self.blines = [ln.encode('utf8') for ln in code.split('\n')]
+        self.toks = [t for t in tokenize.generate_tokens(io.StringIO(code).readline)]
+        self.tok_at = {t.start: i for i, t in enumerate(self.toks) if t.type not in (tokenize.NL, tokenize.NEWLINE,
+                                                                                   tokenize.INDENT, tokenize.DEDENT,
+                                                                                   tokenize.ENDMARKER)}
+        self.defs = []
+        self.by_name_pos = {}
+        self.param_of = {}
+        self.lambdas = []
+        self.stores = {}            # position -> 'plain' | 'nested'  (ast.Name in Store context)
+        self.scope_decls = []       # (start, end, names) of global / nonlocal statements
+        self._build()
+
+    def cc(self, lineno, bytecol):
+        return len(self.blines[lineno - 1][:bytecol].decode('utf8'))
+
+    def pos(self, node):
+        return node.lineno, self.cc(node.lineno, node.col_offset)
+
+    def end(self, node):
+        return node.end_lineno, self.cc(node.end_lineno, node.end_col_offset)
+
+    def _at_sign_before(self, pos):
+        i = self.tok_at[pos]
+        while i > 0:
+            i -= 1
+            t = self.toks[i]
+            if t.type == tokenize.OP and t.string == '@':
+                return t.start
+            if t.type not in (tokenize.NL, tokenize.COMMENT):
+                break
+        raise HarnessError('harness: no @ before decorator at %r' % (pos,))
+
+    def _first_pos(self, node):
+        if getattr(node, 'decorator_list', None):
+            return self._at_sign_before(self.pos(node.decorator_list[0]))
+        return self.pos(node)
+
+    def _build(self):
+        for node in ast.walk(self.tree):
+            if isinstance(node, (ast.FunctionDef, ast.AsyncFunctionDef, ast.ClassDef)):
+                d = Def()
+                d.node = node
+                d.kind = 'class' if isinstance(node, ast.ClassDef) else 'function'
+                d.name = node.name
+                d.is_async = isinstance(node, ast.AsyncFunctionDef)
+                d.stmt_pos = self.pos(node)
+                i = self.tok_at[d.stmt_pos]
+                if d.is_async:
+                    if self.toks[i].string != 'async':
+                        raise HarnessError('harness: async expected at %r' % (d.stmt_pos,))
+                    i += 1
+                if self.toks[i].string not in ('def', 'class'):
+                    raise HarnessError('harness: def/class expected at %r' % (d.stmt_pos,))
+                d.kw_pos = self.toks[i].start
+                if self.toks[i + 1].string != node.name:
+                    raise HarnessError('harness: name token mismatch at %r' % (d.stmt_pos,))
+                d.name_pos = self.toks[i + 1].start
+                d.first_pos = self._first_pos(node)
+                d.body_first = self._first_pos(node.body[0])
+                d.body_end = self.end(node.body[-1])
+                d.params = []
+                if d.kind == 'function':
+                    a = node.args
+                    for arg in a.posonlyargs + a.args + ([a.vararg] if a.vararg else []) + a.kwonlyargs + \
+                            ([a.kwarg] if a.kwarg else []):
+                        p = self.pos(arg)
+                        d.params.append(p)
+                        self.param_of[p] = d
+                self.defs.append(d)
+                self.by_name_pos[d.name_pos] = d
+            elif isinstance(node, ast.Lambda):
+                self.lambdas.append((self.pos(node), self.end(node)))
+            elif isinstance(node, (ast.Global, ast.Nonlocal)):
+                self.scope_decls.append((self.pos(node), self.end(node), set(node.names)))
+        self.defs.sort(key=lambda d: d.body_first)
+        for d in self.defs:
+            d.chain = self.body_chain(d.stmt_pos)
+        # simple Store names (candidates for "variable defined at module/class level")
+        def walk(node, nested):
+            for ch in ast.iter_child_nodes(node):
+                n2 = nested or isinstance(ch, (ast.Lambda, ast.ListComp, ast.SetComp, ast.DictComp, ast.GeneratorExp))
+                if isinstance(ch, ast.Name) and isinstance(ch.ctx, ast.Store):
+                    self.stores[self.pos(ch)] = 'nested' if nested else 'plain'
+                walk(ch, n2)
+        walk(self.tree, False)
+
+    def body_chain(self, pos):
+        """the defs whose BODY contains pos, outermost first"""
+        return [d for d in self.defs if d.body_first <= pos < d.body_end]
+
+    def header_of(self, pos):
+        """the def whose header (async/def/class keyword up to the first body statement) contains pos"""
+        for d in self.defs:
+            if d.stmt_pos <= pos < d.body_first:
+                return d
+        return None
+
+    def in_lambda(self, pos):
+        return any(s <= pos < e for s, e in self.lambdas)
+
+    def position_class(self, pos):
+        """input class of a position (decided from the input alone)"""
+        ch = self.body_chain(pos)
+        if not ch:
+            return 'plain'
+        inner = ch[-1]
+        if inner.kind == 'class' and self.in_lambda(pos):
+            return 'class-lambda'
+        if pos[1] <= inner.stmt_pos[1]:
+            return 'dedent'
+        if inner.is_async and pos[1] <= inner.kw_pos[1]:
+            return 'async-col'
+        if any(pos[1] <= d.stmt_pos[1] for d in ch):
+            return 'dedent'
+        return 'plain'
+
+    def wanted_chains(self, pos):
+        """the acceptable lexical chains (lists of Def, outermost first) of a Name whose defining position is pos"""
+        if pos in self.by_name_pos:
+            return [self.by_name_pos[pos].chain]
+        if pos in self.param_of:
+            d = self.param_of[pos]
+            return [d.chain + [d]]
+        ch = self.body_chain(pos)
+        h = self.header_of(pos)
+        if h is not None:
+            # e.g. the parameter of a lambda that is a default value: evaluated outside, written inside the def
+            return [ch, ch + [h]]
+        if ch and self.scope_decls:
+            # a name that the innermost function declares global / nonlocal is written inside that function but is a
+            # definition of an outer scope: both readings are accepted
+            tok = self.toks[self.tok_at[pos]].string if pos in self.tok_at else None
+            inner = ch[-1]
+            for start, end, names in self.scope_decls:
+                if tok in names and inner.body_first <= start < inner.body_end and self.body_chain(start) == ch:
+                    return [ch] + [ch[:i] for i in range(len(ch))]
+        return [ch]
+
+    def access_paths(self):
+        """dotted attribute paths of all definitions whose enclosing scopes are classes only"""
+        out = set()
+        for d in self.defs:
+            if all(c.kind == 'class' for c in d.chain):
+                out.add('.'.join([c.name for c in d.chain] + [d.name]))
+        return sorted(out)
+
+
+# ----------------------------------------------------------------------------------------------------------------------
+# the run-time oracle: a child interpreter imports the modules with the real import system
+ORACLE_CHILD = r'''
+import sys, json, os, importlib, types
+req = json.loads(sys.stdin.read())
+sys.path.insert(0, req['root'])
+sys.dont_write_bytecode = True
+out = {}
+
+def describe(obj):
+    if isinstance(obj, property):
+        qs = set()
+        for f in (obj.fget, obj.fset, obj.fdel):
+            if f is not None and hasattr(f, '__qualname__'):
+                qs.add((f.__module__, f.__qualname__))
+        if len(qs) == 1:
+            m, q = qs.pop()
+            return ['property', m, q]
+        return None
+    if isinstance(obj, (staticmethod, classmethod)):
+        obj = obj.__func__
+    if isinstance(obj, type):
+        return ['class', obj.__module__, obj.__qualname__]
+    if isinstance(obj, (types.FunctionType, types.MethodType)):
+        return ['function', obj.__module__, obj.__qualname__]
+    return None
+
+for m in req['modules']:
+    try:
+        mod = importlib.import_module(m['dotted'])
+    except BaseException as e:
+        if m['must_import']:
+            raise
+        out[m['rel']] = {'error': '%s: %s' % (type(e).__name__, e)}
+        continue
+    f = getattr(mod, '__file__', None)
+    if f is None or not os.path.samefile(f, m['path']):
+        raise RuntimeError('import of %s gave %r, not %r' % (m['dotted'], f, m['path']))
+    objs = {}
+    for path in m['paths']:
+        cur = mod
+        ok = True
+        for part in path.split('.'):
+            d = getattr(cur, '__dict__', {})
+            if part in d:
+                cur = d[part]
+            else:
+                ok = False
+                break
+        objs[path] = describe(cur) if ok else None
+    refs = {}
+    for r in m['refs']:
+        if hasattr(mod, r):
+            refs[r] = describe(getattr(mod, r))
+    out[m['rel']] = {'name': mod.__name__, 'objs': objs, 'refs': refs}
+print('ORACLE ' + json.dumps(out))
+'''
+
+
+def run_oracle(root, modules):
+    p = subprocess.run([sys.executable, '-c', ORACLE_CHILD], input=json.dumps({'root': root, 'modules': modules}),
+                       capture_output=True, text=True, timeout=600,
+                       env={k: v for k, v in os.environ.items() if k not in ('PYTHONPATH',)})
+    for line in p.stdout.splitlines():
+        if line.startswith('ORACLE '):
+            return json.loads(line[7:])
+    raise HarnessError('harness: run-time oracle failed (root %s):\n%s' % (root, p.stderr[-3000:]))
+
+
+# ----------------------------------------------------------------------------------------------------------------------
+# the program generator
+class ClassInfo:
+    def __init__(self, path, bases, executed):
+        self.path = path                # list of names from module level, or None if not reachable by attribute access
+        self.bases = bases              # ClassInfo list
+        self.executed = executed
+        self.methods = {}               # name -> kind ('plain', 'static', 'class', 'property', 'async')
+        self.nested = []                # names of nested classes
+        self.plain = False
+
+    def all_methods(self):
+        out = {}
+        for b in reversed(self.bases):
+            out.update(b.all_methods())
+        out.update(self.methods)
+        return out
+
+    def expr(self, prefix=''):
+        return prefix + '.'.join(self.path)
+
+
+class ProgGen:
+    """one random module; `imports` = [(dotted, relative form or None, export dict)] of earlier modules"""
+
+    def __init__(self, rng, imports, size):
+        self.rng = rng
+        self.size = size
+        self.unit = rng.choice(['    ', '    ', '    ', '  ', ' ', '\t', '        '])
+        self.lines = []
+        self.counter = 0
+        self.classes = []               # executed, completely defined classes reachable by attribute paths
+        self.pending = []               # the same, but the outermost class statement is not finished yet
+        self.scope_stack = []           # names bound so far in the class bodies that are open (and executed)
+        self.funcs = []                 # executed module level functions
+        self.ext = []                   # (expression for the class, ClassInfo of a class of another module)
+        self.refs = []                  # names of the module level reference variables
+        self.imports = imports
+        self.p_dedent = rng.choice([0.0, 0.0, 0.15])
+        self.p_oneline = rng.choice([0.0, 0.1, 0.3])
+        self.p_multiline = rng.choice([0.0, 0.2, 0.5])
+        self.p_alias = rng.choice([0.0, 0.1, 0.3])
+        self.budget = size
+
+    # -- helpers
+    def emit(self, level, text):
+        self.lines.append(self.unit * level + text)
+
+    def fresh(self, prefix, scope_used, parent_name=None):
+        r = self.rng.random()
+        cand = None
+        if r < self.p_alias:
+            cand = self.rng.choice(ALIAS_KEYS)
+        elif r < self.p_alias + 0.07 and parent_name:
+            cand = parent_name
+        if cand is None or cand in scope_used or keyword.iskeyword(cand):
+            self.counter += 1
+            cand = '%s%d' % (prefix, self.counter)
+        scope_used.add(cand)
+        return cand
+
+    def literal(self):
+        # the non-ASCII literal shifts the byte offsets (ast) against the character offsets (jedi, tokenize) of what
+        # follows it on the line
+        return self.rng.choice(['1', '2', "'s'", 'None', '(1, 2)', '[1]', '{}', '3.5', 'True', "'\u00e9\u20ac'"])
+
+    def comp(self, depth=0, allow_lambda=True):
+        """a run-time safe comprehension"""
+        r = self.rng
+        self.counter += 1
+        v = 'c%d' % self.counter
+        w = 'd%d' % self.counter
+        elt = r.choice([v, '%s * 2' % v, '(%s, 1)' % v, 'str(%s)' % v])
+        if depth < 2 and r.random() < 0.3:
+            elt = self.comp(depth + 1, allow_lambda)
+        elif allow_lambda and r.random() < 0.15:
+            elt = 'lambda: %s' % v
+        src = r.choice(['range(3)', '(1, 2)', '[0, 1]'])
+        tail = r.choice(['', ' if %s' % v, ' for %s in range(2)' % w, ' for %s in range(2) if %s' % (w, w)])
+        form = r.randrange(4)
+        if form == 0:
+            return '[%s for %s in %s%s]' % (elt, v, src, tail)
+        if form == 1:
+            return '{%s for %s in %s%s}' % (v, v, src, tail)
+        if form == 2:
+            return '{%s: %s for %s in %s%s}' % (v, elt, v, src, tail)
+        return 'list(%s for %s in %s%s)' % (elt, v, src, tail)
+
+    def lam(self):
+        r = self.rng
+        self.counter += 1
+        a = 'l%d' % self.counter
+        return r.choice(['lambda %s: %s' % (a, a), 'lambda %s, k%d=1: (%s, k%d)' % (a, self.counter, a, self.counter),
+                         'lambda: 0', 'lambda *%s: [e%d for e%d in %s]' % (a, self.counter, self.counter, a),
+                         'lambda %s: lambda m%d: %s' % (a, self.counter, a)])
+
+    def safe_expr(self):
+        r = self.rng.random()
+        if r < 0.3:
+            return self.literal()
+        if r < 0.6:
+            return self.comp()
+        if r < 0.75:
+            return self.lam()
+        funcs = [f for f in self.funcs if self.visible(f)]
+        classes = [c for c in self.classes if self.visible(c.path[0])]
+        if r < 0.85 and funcs:
+            return self.rng.choice(funcs)
+        if r < 0.95 and classes:
+            return self.rng.choice(classes).expr()
+        return '(%s, %s)' % (self.literal(), self.literal())
+
+    def multiline(self, level, head, items, tail):
+        """head + items + tail, possibly spread over continuation lines (sometimes dedented)"""
+        r = self.rng
+        if not items or r.random() >= self.p_multiline:
+            self.emit(level, head + ', '.join(items) + tail)
+            return
+        if r.random() < self.p_dedent and level > 0:
+            ind = self.unit * r.randrange(0, level)
+        else:
+            ind = self.unit * (level + r.choice([1, 2, 2]))
+        self.emit(level, head)
+        for it in items:
+            self.lines.append(ind + it + ',')
+        self.lines.append(r.choice([self.unit * level, ind]) + tail)
+
+    # -- definitions
+    def decorators(self, level, in_class):
+        r = self.rng
+        decs = []
+        x = r.random()
+        if x < 0.45:
+            return decs
+        if x < 0.6:
+            decs.append(self.ident)
+        elif x < 0.75:
+            args = r.sample([self.lam(), self.comp(), '1'], r.randrange(0, 3))
+            if r.random() < 0.4:
+                args.append('key=%s' % self.lam())
+            decs.append('%s(%s)' % (self.factory, ', '.join(args)))
+        elif x < 0.85:
+            decs.extend([self.ident, '%s()' % self.factory])
+        else:
+            decs.extend(['%s(%s)' % (self.factory, self.lam()), self.ident, self.ident])
+        return decs
+
+    def params(self, first, safe=True):
+        r = self.rng
+        ps = [first] if first else []
+        self.counter += 1
+        k = self.counter
+        n = r.randrange(0, 4)
+        have_default = False
+        for i in range(n):
+            p = 'p%d_%d' % (k, i)
+            if r.random() < 0.3:
+                p += ': ' + r.choice(['int', "'T'", 'str', 'list'])
+                if have_default or r.random() < 0.5:
+                    p += ' = ' + (self.safe_expr())
+                    have_default = True
+            elif have_default or r.random() < 0.4:
+                p += '=' + self.safe_expr()
+                have_default = True
+            ps.append(p)
+        if n >= 2 and not have_default and r.random() < 0.2:
+            ps.insert(len(ps) - 1, '/')
+        if r.random() < 0.25:
+            ps.append('*a%d' % k)
+            if r.random() < 0.5:
+                ps.append('ko%d=%s' % (k, self.safe_expr()))
+        if r.random() < 0.25:
+            ps.append('**kw%d' % k)
+        return ps
+
+    def funcdef(self, level, scope_used, parent, cls, executed, depth, forced_name=None, forced_decs=None,
+                force_kind=None):
+        """cls: ClassInfo if this is a method"""
+        r = self.rng
+        self.budget -= 1
+        name = forced_name or self.fresh(r.choice(['fn', 'meth', 'do']), scope_used, parent)
+        is_async = force_kind is None and r.random() < 0.25
+        kind = force_kind or ('async' if is_async else 'plain')
+        decs = list(forced_decs) if forced_decs is not None else self.decorators(level, cls is not None)
+        first = None
+        if cls is not None:
+            x = r.random()
+            first = 'self'
+            if forced_decs is None and force_kind is None and x < 0.12 and not is_async:
+                decs.append('staticmethod')
+                first = None
+                kind = 'static'
+            elif forced_decs is None and force_kind is None and x < 0.24 and not is_async:
+                decs.append('classmethod')
+                first = 'cls'
+                kind = 'class'
+        for dline in decs:
+            self.emit(level, '@' + dline)
+        if kind == 'property':
+            ps = [first] if forced_name is None or forced_decs == ['property'] else [first, 'value']
+            if forced_decs and forced_decs[0].endswith('.deleter'):
+                ps = [first]
+        else:
+            ps = self.params(first)
+        ret = r.choice(['', '', '', ' -> int', " -> 'T'"])
+        head = ('async def ' if is_async else 'def ') + name + '('
+        if cls is not None:
+            if executed:
+                cls.methods[name] = kind
+        elif cls is None and parent is None and executed:
+            self.funcs.append(name)
+        if depth >= 4 or self.budget <= 0 or r.random() < self.p_oneline:
+            self.emit(level, head + ', '.join(ps) + ')' + ret + ': ' + r.choice(['return 1', 'pass', 'v = 1; return v']))
+            return name
+        self.multiline(level, head, ps, ')' + ret + ':')
+        if r.random() < 0.2:
+            self.emit(level + 1, '"""doc of %s"""' % name)
+        self.func_body(level + 1, name, cls, is_async, depth + 1, kind)
+        return name
+
+    def func_body(self, level, fname, cls, is_async, depth, kind):
+        """never executed (except __init__, which is written by classdef itself)"""
+        r = self.rng
+        used = set()
+        n = r.randrange(1, 5)
+        locs = []
+        for _ in range(n):
+            x = r.random()
+            if x < 0.2:
+                v = self.fresh('loc', used)
+                self.emit(level, '%s = %s' % (v, r.choice([self.safe_expr(), self.ref_expr(cls)] + locs)))
+                locs.append(v)
+            elif x < 0.3 and cls is not None and kind not in ('static', 'class'):
+                self.emit(level, 'self.at%d = %s' % (self.next(), self.safe_expr()))
+            elif x < 0.45:
+                self.emit(level, self.ref_expr(cls))
+            elif x < 0.6 and self.budget > 0:
+                self.funcdef(level, used, fname, None, False, depth)
+            elif x < 0.7 and self.budget > 0:
+                self.classdef(level, used, fname, None, False, depth)
+            elif x < 0.78:
+                k = self.next()
+                self.multiline(level, 'big%d = [' % k, [self.literal(), self.lam(), (locs or ['0'])[0]], ']')
+            elif x < 0.84:
+                k = self.next()
+                self.emit(level, 'if (w%d := %s) is not None:' % (k, self.literal()))
+                self.emit(level + 1, 'u%d = w%d' % (k, k))
+            elif x < 0.9:
+                k = self.next()
+                hdr = r.choice(['for it%d in %s:' % (k, self.comp()), 'with %s() as cm%d:' % (self.ctx, k),
+                                'while True:', 'try:'])
+                if is_async and r.random() < 0.6 and not hdr.startswith(('while', 'try')):
+                    hdr = 'async ' + hdr
+                self.emit(level, hdr)
+                if self.budget > 0 and r.random() < 0.6:
+                    self.funcdef(level + 1, used, fname, None, False, depth)
                 else:
-                    return None     # header position: unspecified
-            elif isinstance(par, (ast.Lambda, ast.ListComp, ast.SetComp, ast.DictComp, ast.GeneratorExp)):
-                pass
-            cur = par
-        return list(reversed(out))
-    return tree, defs, chain, parents
+                    self.emit(level + 1, 'z%d = %s' % (k, self.lam()))
+                if hdr == 'try:':
+                    self.emit(level, 'except Exception as exc%d:' % k)
+                    self.emit(level + 1, 'y%d = exc%d' % (k, k))
+                elif hdr == 'while True:':
+                    self.emit(level + 1, 'break')
+            elif x < 0.95:
+                self.emit(level, r.choice(['import os', 'import os.path as osp', 'from os import sep']))
+            else:
+                k = self.next()
+                if is_async:
+                    self.emit(level, 'got%d = [aw%d async for aw%d in %s]' % (k, k, k, (locs or ['()'])[0]))
+                else:
+                    self.emit(level, 'got%d = %s' % (k, self.comp()))
+        self.emit(level, r.choice(['return None', 'return %s' % (locs or ['0'])[-1], 'pass',
+                                   'return %s' % self.lam()]) if not is_async or r.random() < 0.5 else
+                  'return await %s' % (locs or ['fut'])[-1])
+
+    def next(self):
+        self.counter += 1
+        return self.counter
+
+    def visible(self, name):
+        """a module level name is not shadowed by a name of one of the class bodies that are being executed"""
+        return not any(name in used for used in self.scope_stack)
+
+    def ref_expr(self, cls):
+        """an expression that refers to definitions (used in bodies that are never executed)"""
+        r = self.rng
+        cands = []
+        if cls is not None:
+            ms = list(cls.all_methods())
+            if ms:
+                cands.append('self.%s' % r.choice(ms))
+                cands.append('cls.%s' % r.choice(ms))
+                cands.append('super().%s' % r.choice(ms))
+            if cls.nested:
+                cands.append('self.%s' % r.choice(cls.nested))
+        if self.classes:
+            c = r.choice(self.classes)
+            ms = list(c.all_methods())
+            cands.append(c.expr())
+            if ms:
+                cands.append('%s.%s' % (c.expr(), r.choice(ms)))
+                cands.append('%s().%s' % (c.expr(), r.choice(ms)))
+        if self.ext:
+            ex, c = r.choice(self.ext)
+            ms = list(c.all_methods())
+            if ms:
+                cands.append('%s().%s' % (ex, r.choice(ms)))
+        if self.funcs:
+            cands.append(r.choice(self.funcs))
+        return r.choice(cands) if cands else self.literal()
+
+    def pick_bases(self):
+        r = self.rng
+        x = r.random()
+        pool = [c for c in self.classes if self.visible(c.path[0])] + [c for _, c in self.ext]
+        if x < 0.45 or not pool:
+            return [], r.choice(['', '', '()', '(object)', '(dict)', '(metaclass=type)', '(Exception)'])
+        b = r.choice(pool)
+        text = self.base_text(b)
+        if x < 0.9:
+            return [b], '(%s)' % text + ''
+        roots = [c for c in pool if c.plain and c is not b and b.plain]
+        if roots:
+            b2 = r.choice(roots)
+            return [b, b2], '(%s, %s)' % (text, self.base_text(b2))
+        return [b], '(%s, metaclass=type)' % text
+
+    def base_text(self, c):
+        for ex, c2 in self.ext:
+            if c2 is c:
+                return ex
+        return c.expr()
+
+    def classdef(self, level, scope_used, parent, outer, executed, depth):
+        """outer: ClassInfo of the enclosing class or None; the class is reachable iff at module level or outer.path"""
+        r = self.rng
+        self.budget -= 1
+        name = self.fresh(r.choice(['Kls', 'Cls', 'Node']), scope_used, parent)
+        # `parent` is the name of the directly enclosing def/class (None at module level, also inside if/try/for/with)
+        if executed and outer is None and parent is None:
+            path = [name]
+        elif executed and outer is not None and outer.path is not None:
+            path = outer.path + [name]
+        else:
+            path = None
+        bases, btext = ([], '') if not executed else self.pick_bases()
+        info = ClassInfo(path, bases, executed)
+        info.plain = not bases and btext in ('', '()', '(object)')       # can be combined with another such base
+        decs = [d for d in self.decorators(level, False)] if r.random() < 0.3 else []
+        for dline in decs:
+            self.emit(level, '@' + dline)
+        if depth >= 4 or self.budget <= 0 or r.random() < self.p_oneline * 0.5:
+            self.emit(level, 'class %s%s: %s' % (name, btext, r.choice(['pass', 'cv = 1', 'cv = 1; cw = [q for q in (1,)]'])))
+            if info.path is not None:
+                self.pending.append(info)
+            if outer is not None and executed:
+                outer.nested.append(name)
+            return info
+        self.emit(level, 'class %s%s:' % (name, btext))
+        used = set()
+        self.scope_stack.append(used)
+        if r.random() < 0.2:
+            self.emit(level + 1, '"""doc of %s"""' % name)
+        n = r.randrange(1, 6)
+        for _ in range(n):
+            x = r.random()
+            if x < 0.15:
+                self.emit(level + 1, '%s = %s' % (self.fresh('cv', used), r.choice([self.literal(), self.comp(),
+                                                                                    self.comp(), self.lam()])))
+            elif x < 0.5:
+                self.funcdef(level + 1, used, name, info, executed, depth + 1)
+            elif x < 0.62 and self.budget > 0:
+                self.classdef(level + 1, used, name, info, executed, depth + 1)
+            elif x < 0.75:
+                pn = self.fresh('prop', used, name)
+                self.funcdef(level + 1, used, name, info, executed, depth + 1, forced_name=pn,
+                             forced_decs=['property'], force_kind='property')
+                if r.random() < 0.6:
+                    self.funcdef(level + 1, used, name, info, executed, depth + 1, forced_name=pn,
+                                 forced_decs=['%s.setter' % pn], force_kind='property')
+                if r.random() < 0.2:
+                    self.funcdef(level + 1, used, name, info, executed, depth + 1, forced_name=pn,
+                                 forced_decs=['%s.deleter' % pn], force_kind='property')
+            elif x < 0.82 and '__init__' not in used:
+                used.add('__init__')
+                k = self.next()
+                self.emit(level + 1, 'def __init__(self, ia%d=1, *ib%d, **ic%d):' % (k, k, k))
+                self.emit(level + 2, 'self.ia%d = ia%d' % (k, k))
+                info.methods['__init__'] = 'init'
+            elif x < 0.92:
+                self.wrapped(level + 1, used, name, info, executed, depth + 1)
+            else:
+                self.multiline(level + 1, '%s = (' % self.fresh('cv', used), [self.literal(), self.comp()], ')')
+        self.scope_stack.pop()
+        if info.path is not None:
+            self.pending.append(info)
+        if outer is not None and executed:
+            outer.nested.append(name)
+        return info
+
+    def wrapped(self, level, used, parent, outer, executed, depth):
+        """definitions inside compound statements: still the same lexical scope"""
+        r = self.rng
+        k = self.next()
+        form = r.randrange(5)
+
+        def one(lv, ex):
+            if r.random() < 0.5:
+                self.funcdef(lv, used, parent, outer, ex, depth)
+            else:
+                self.classdef(lv, used, parent, outer, ex, depth)
+        if form == 0:
+            self.emit(level, 'if True:')
+            one(level + 1, executed)
+        elif form == 1:
+            self.emit(level, 'if 0:')
+            one(level + 1, False)
+            self.emit(level, 'else:')
+            one(level + 1, executed)
+        elif form == 2:
+            self.emit(level, 'try:')
+            one(level + 1, executed)
+            self.emit(level, 'except Exception as exc%d:' % k)
+            one(level + 1, False)
+            if r.random() < 0.5:
+                self.emit(level, 'finally:')
+                self.emit(level + 1, 'fin%d = 1' % k)
+        elif form == 3:
+            self.emit(level, 'for it%d in (1,):' % k)
+            one(level + 1, executed)
+        else:
+            self.emit(level, 'with %s() as cm%d:' % (self.ctx, k))
+            one(level + 1, executed)
+
+    # -- the module
+    def module(self):
+        r = self.rng
+        used = set()
+        self.emit(0, '"""generated module"""')
+        for dotted, relform, export in self.imports:
+            forms = ['import', 'import-as', 'from']
+            if relform:
+                forms += ['rel', 'rel']
+            f = r.choice(forms)
+            k = self.next()
+            if f == 'import':
+                self.emit(0, 'import %s' % dotted)
+                pre = dotted + '.'
+            elif f == 'import-as':
+                self.emit(0, 'import %s as im%d' % (dotted, k))
+                pre = 'im%d.' % k
+            elif f == 'from' and '.' in dotted:
+                self.emit(0, 'from %s import %s as im%d' % (dotted.rsplit('.', 1)[0], dotted.rsplit('.', 1)[1], k))
+                pre = 'im%d.' % k
+            elif f == 'rel':
+                self.emit(0, 'from %s import %s as im%d' % (relform[0], relform[1], k))
+                pre = 'im%d.' % k
+            else:
+                self.emit(0, 'import %s as im%d' % (dotted, k))
+                pre = 'im%d.' % k
+            for c in export['classes']:
+                self.ext.append((c.expr(pre), c))
+            tops = [c for c in export['classes'] if len(c.path) == 1]
+            if tops and r.random() < 0.5:
+                c = r.choice(tops)
+                self.emit(0, 'from %s import %s as Ext%d' % (dotted, c.path[0], k))
+                self.ext.append(('Ext%d' % k, c))
+        self.ident = 'ident%d' % self.next()
+        self.factory = 'factory%d' % self.next()
+        self.ctx = 'Ctx%d' % self.next()
+        self.emit(0, 'def %s(f):' % self.ident)
+        self.emit(1, 'return f')
+        self.emit(0, 'def %s(*args, **kwargs):' % self.factory)
+        self.emit(1, 'def deco(f):')
+        self.emit(2, 'return f')
+        self.emit(1, 'return deco')
+        self.emit(0, 'class %s:' % self.ctx)
+        self.emit(1, 'def __enter__(self): return self')
+        self.emit(1, 'def __exit__(self, *exc): return False')
+        while self.budget > 0:
+            self.classes.extend(self.pending)
+            self.pending = []
+            x = r.random()
+            if x < 0.4:
+                self.classdef(0, used, None, None, True, 0)
+            elif x < 0.6:
+                self.funcdef(0, used, None, None, True, 0)
+            elif x < 0.7:
+                self.wrapped(0, used, None, None, True, 0)
+            elif x < 0.85:
+                self.emit(0, '%s = %s' % (self.fresh('mv', used), self.safe_expr()))
+                self.budget -= 1
+            elif x < 0.9:
+                k = self.next()
+                self.emit(0, 'for mi%d, mj%d in ((1, 2),):' % (k, k))
+                self.emit(1, 'mk%d = mi%d' % (k, k))
+                self.budget -= 1
+            else:
+                self.multiline(0, '%s = [' % self.fresh('mv', used), [self.literal(), self.lam(), self.comp()], ']')
+                self.budget -= 1
+        self.classes.extend(self.pending)
+        self.pending = []
+        # the reference section (executed at import)
+        targets = []
+        for c in self.classes:
+            targets.append(c.expr())
+            inst = all(b.path is not None for b in c.bases)
+            for m, kind in c.all_methods().items():
+                if m == '__init__':
+                    continue
+                targets.append('%s.%s' % (c.expr(), m))
+                if kind != 'property' and inst:
+                    targets.append('%s().%s' % (c.expr(), m))
+            for nn in c.nested:
+                targets.append('%s.%s' % (c.expr(), nn))
+        for ex, c in self.ext:
+            for m, kind in c.all_methods().items():
+                if m == '__init__':
+                    continue
+                targets.append('%s.%s' % (ex, m))
+                if kind != 'property':
+                    targets.append('%s().%s' % (ex, m))
+        targets.extend(self.funcs)
+        r.shuffle(targets)
+        for t in targets[:max(12, self.size)]:
+            k = self.next()
+            if r.random() < 0.2 and '.' in t:
+                head, tail = t.rsplit('.', 1)
+                self.emit(0, 'al%d = %s' % (k, head))
+                t = 'al%d.%s' % (k, tail)
+            self.emit(0, 'ref%d = %s' % (k, t))
+            self.refs.append('ref%d' % k)
+        return '\n'.join(self.lines) + '\n'
+
+    def export(self):
+        return {'classes': [c for c in self.classes if c.path is not None], 'funcs': list(self.funcs)}
 
 
-def name_pos(code, d):
-    line = code.split('\n')[d.lineno - 1]
-    kw = 'def ' if isinstance(d, ast.FunctionDef) else 'class '
-    col = line.index(kw, d.col_offset) + len(kw)
-    return d.lineno, col
+def gen_layout(rng, nmods):
+    """random relative module paths and the kind (regular package / implicit namespace) of every directory"""
+    dirs = {}           # relative dir -> 'regular' | 'namespace'
+    rels = []
+    for i in range(nmods):
+        depth = rng.choice([0, 1, 1, 2, 2, 3])
+        cur = ''
+        for level in range(depth):
+            subs = sorted(d for d in dirs if os.path.dirname(d) == cur)
+            if subs and rng.random() < 0.5:
+                d = rng.choice(subs)
+            else:
+                if level and rng.random() < 0.25:
+                    nm = rng.choice(ALIAS_KEYS)
+                else:
+                    nm = rng.choice(['pk', 'nsp', 'lb', 'tl']) + str(rng.randrange(3))
+                d = os.path.join(cur, nm) if cur else nm
+                if d + '.py' in rels:       # a module of that name exists: a directory would shadow it
+                    d += 'd'
+                if d not in dirs:
+                    dirs[d] = rng.choice(['regular', 'namespace', 'namespace'])
+            cur = d
+        if cur and dirs[cur] == 'regular' and rng.random() < 0.25 and (cur + '/__init__.py') not in rels:
+            rel = cur + '/__init__.py'
+        else:
+            base = rng.choice(ALIAS_KEYS) if (cur and rng.random() < 0.2) else 'm%d' % i
+            rel = (cur + '/' if cur else '') + base + '.py'
+            if rel in rels or (rel[:-3] in dirs):
+                rel = (cur + '/' if cur else '') + 'm%d.py' % i
+        rels.append(rel)
+    return rels, dirs
+
+
+def dotted_of(rel):
+    d = rel[:-3].replace('/', '.')
+    if d.endswith('.__init__'):
+        d = d[:-len('.__init__')]
+    return d
+
+
+# ----------------------------------------------------------------------------------------------------------------------
+# the checks
+class ModInfo:
+    def __init__(self, rel, path, code, model, rt):
+        self.rel = rel
+        self.path = path
+        self.code = code
+        self.model = model
+        self.rt = rt            # run-time facts {'name', 'objs', 'refs'} or None
+
+
+class Checker:
+    def __init__(self, jedi, mods, rng, generated):
+        self.jedi = jedi
+        self.mods = {os.path.realpath(m.path): m for m in mods}
+        self.rng = rng
+        self.generated = generated
+        self.violations = []
+        self.evaluations = 0
+        self.nontrivial = 0
+        self.seen = set()
+        self.skipped_fullname = 0
+        self.route_errors = 0
+        self.sandbox_artefacts = 0
+        self.unidentified = 0
+        self._mp_cache = {}
+        self.dup_dirs = set()     # directory names that occur at two places of the project
+
+    def add(self, label, kind, inp, observed):
+        self.violations.append({'label': label, 'kind': kind, 'input': inp, 'observed': observed})
+
+    def raised(self, label, kind, inp):
+        """an observable of the property raised (call inside the except block)"""
+        full = traceback.format_exc()
+        if "'CompiledModule' object has no attribute 'non_stub_value_set'" in full:
+            # artefact of this sandbox, not of jedi: the typeshed submodule is empty, the builtins module is a compiled
+            # module and every inference that touches True/False/None or a builtin name ends like this
+            self.sandbox_artefacts += 1
+            return
+        tb = full.strip().split('\n')
+        self.add(label, kind, inp, '\n'.join(tb[:1] + tb[-9:]))
+
+    def modinfo_of(self, name):
+        mp = name.module_path
+        if mp is None:
+            return None
+        mp = str(mp)
+        if mp not in self._mp_cache:
+            self._mp_cache[mp] = self.mods.get(os.path.realpath(mp))
+        return self._mp_cache[mp]
+
+    # -- expected full name of the definition at `pos` (None: the property does not speak about it)
+    def wanted_full_name(self, mi, pos):
+        if mi.rt is None:
+            return None
+        model = mi.model
+        rt = mi.rt
+
+        def owner_full(chain):
+            if not chain:
+                return rt['name']
+            o = rt['objs'].get('.'.join(c.name for c in chain))
+            if o is None or o[0] != 'class':
+                return None
+            return o[1] + '.' + o[2]
+        d = model.by_name_pos.get(pos)
+        if d is not None:
+            if not all(c.kind == 'class' for c in d.chain):
+                return None
+            own = owner_full(d.chain)
+            if own is None:
+                return None
+            want = own + '.' + d.name
+            o = rt['objs'].get('.'.join([c.name for c in d.chain] + [d.name]))
+            if o is not None and o[1] + '.' + o[2] != want:
+                # the object bound to this name at run time is something else (alias, replaced by a decorator, a
+                # second definition in another class of the same name): no oracle
+                if self.generated:
+                    raise HarnessError('harness: run-time name %r differs from the lexical one %r in %s'
+                                       % (o, want, mi.rel))
+                return None
+            return want
+        if model.stores.get(pos) == 'plain' and pos not in model.param_of:
+            ch = model.body_chain(pos)
+            if model.header_of(pos) is not None or not all(c.kind == 'class' for c in ch):
+                return None
+            own = owner_full(ch)
+            if own is None:
+                return None
+            tok = model.toks[model.tok_at[pos]]
+            return own + '.' + tok.string
+        return None
+
+    # -- the central invariant: a Name that denotes the definition at (module, line, column)
+    def check_name(self, name, route, origin):
+        try:
+            typ = name.type
+            mi = self.modinfo_of(name)
+            line, col = name.line, name.column
+        except Exception:
+            # .type infers names bound by imports: not an observable of this property (and without typeshed such
+            # inference raises in this sandbox)
+            self.route_errors += 1
+            return
+        if mi is None:
+            return
+        if typ == 'module' and (line, col) == (1, 0):
+            # the Name of a module itself (names bound by import statements sit on their alias token instead)
+            key = (route, mi.rel, 'module')
+            if key not in self.seen:
+                self.seen.add(key)
+                self.check_module_name(name, mi, route, origin)
+            return
+        if typ == 'instance' or line is None:
+            return
+        pos = (line, col)
+        key = (route, mi.rel, pos)
+        if key in self.seen:
+            return
+        self.seen.add(key)
+        model = mi.model
+        tok = model.toks[model.tok_at[pos]] if pos in model.tok_at else None
+        if tok is None or tok.type != tokenize.NAME or tok.string != ('lambda' if name.name == '<lambda>' else name.name):
+            # module_path/line/column of this Name do not designate an identifier of that spelling: it cannot be
+            # attributed to a definition of the model (positions of Names are another property)
+            self.unidentified += 1
+            return
+        tokstr = tok.string
+        self.evaluations += 1
+        inp = repr((mi.rel, tokstr, pos)) + ('' if route == 'get_names' else ' via %s from %r' % (route, origin))
+        pclass = model.position_class(pos)
+        kind = '%s/%s/%s' % (route, typ, pclass)
+        try:
+            got = []
+            cur = name.parent()
+            steps = 0
+            top = None
+            while cur is not None:
+                steps += 1
+                if steps > 60:
+                    break
+                if cur.type == 'module':
+                    top = cur
+                    break
+                got.append((cur.name, cur.line, cur.column, cur))
+                cur = cur.parent()
+            wants = model.wanted_chains(pos)
+            got_cmp = [(n, l, c) for n, l, c, _ in got if n != '<lambda>']
+            want_cmps = [[(d.name,) + d.name_pos for d in reversed(w)] for w in wants]
+            if wants[0]:
+                self.nontrivial += 1
+            if got_cmp not in want_cmps or top is None:
+                self.add(L_CHAIN + self.route_suffix(route) + CLASS_SUFFIX[pclass], kind, inp,
+                         'got %r want %r' % ([g[0] for g in got_cmp], [w[0] for w in want_cmps[0]])
+                         + ' (positions got %r want %r; chain %s at a module)'
+                         % ([g[1:] for g in got_cmp], [w[1:] for w in want_cmps[0]],
+                            'ends' if top is not None else 'DOES NOT end'))
+            if top is not None:
+                mtop = self.modinfo_of(top)
+                if mtop is not mi:
+                    self.add(L_CHAIN + self.route_suffix(route) + CLASS_SUFFIX[pclass], kind, inp,
+                             'chain ends at module %r, the definition is in %r' % (top.full_name, mi.rel))
+                else:
+                    self.check_name(top, 'parent()', inp)
+            want_fn = self.wanted_full_name(mi, pos)
+            if want_fn is not None:
+                self.nontrivial += 1
+                fn = name.full_name
+                if fn != want_fn:
+                    self.add(L_FULL + self.route_suffix(route) + self.envdir_suffix(mi), kind + self.envdir_suffix(mi),
+                             inp, 'got %r want %r' % (fn, want_fn))
+            elif pos in model.by_name_pos:
+                self.skipped_fullname += 1
+            # the Names on the chain are Names of definitions themselves (route parent())
+            for n, l, c, obj in got:
+                if n != '<lambda>':
+                    self.check_name(obj, 'parent()', inp)
+        except HarnessError:
+            raise
+        except Exception:
+            self.raised(L_RAISED + self.route_suffix(route), kind, inp)
+
+    def check_module_name(self, name, mi, route, origin):
+        if mi.rt is None:
+            return
+        self.evaluations += 1
+        self.nontrivial += 1
+        inp = repr((mi.rel, 'module')) + ' via %s from %r' % (route, origin)
+        try:
+            fn = name.full_name
+            want = mi.rt['name']
+            if fn != want or name.name != want.rsplit('.', 1)[-1]:
+                dup = set(mi.rel.split('/')[:-1]) & self.dup_dirs
+                self.add(L_MODNAME + (' [a directory name of its path occurs twice in the project]' if dup else '')
+                         + self.envdir_suffix(mi),
+                         route + '/module' + ('/dup' if dup else '') + self.envdir_suffix(mi), inp,
+                         'got full_name %r name %r want %r' % (fn, name.name, want))
+        except Exception:
+            self.raised(L_RAISED + self.route_suffix(route), route + '/module', inp)
+
+    @staticmethod
+    def envdir_suffix(mi):
+        """input class: corpus modules that lie next to jedi's subprocess start script; the environment reports the
+        sys.path of that process, whose first entry is this directory"""
+        if not mi.path.endswith(os.path.join('jedi', 'inference', 'compiled', 'subprocess', os.path.basename(mi.path))):
+            return ''
+        return ' [module in the directory of jedi\'s own subprocess start script]'
+
+    @staticmethod
+    def route_suffix(route):
+        return '' if route == 'get_names' else ' [Name from %s]' % route
+
+    # -- everything about one module
+    def check_module(self, mi, project, limits):
+        jedi = self.jedi
+        rng = self.rng
+        model = mi.model
+        s = jedi.Script(mi.code, path=mi.path, project=project)
+
+        def call(what, fn, origin):
+            try:
+                return list(fn())
+            except Exception:
+                if what == 'get_names':
+                    return None
+                # not an observable of this property (robustness of the API is another property; without typeshed many
+                # inference paths raise in this sandbox)
+                self.route_errors += 1
+                return []
+        # 1. get_names
+        names = call('get_names', lambda: s.get_names(all_scopes=True, definitions=True, references=False), mi.rel)
+        by_pos = {}
+        names_failed = names is None
+        if names_failed:
+            self.route_errors += 1
+            names = []
+        for n in names:
+            by_pos.setdefault((n.line, n.column), n)
+        for d in model.defs:
+            if not names_failed and d.name_pos not in by_pos:
+                self.evaluations += 1
+                self.add(L_MISSING, 'missing', repr((mi.rel, d.name, d.name_pos)), 'missing')
+        todo = names
+        if len(todo) > limits['names']:
+            todo = rng.sample(todo, limits['names'])
+        for n in todo:
+            self.check_name(n, 'get_names', mi.rel)
+        # 2. Names derived from definition Names
+        dnames = [n for n in names if (n.line, n.column) in model.by_name_pos]
+        if len(dnames) > limits['derived']:
+            dnames = rng.sample(dnames, limits['derived'])
+        for n in dnames:
+            org = (mi.rel, n.name, (n.line, n.column))
+            for x in call('defined_names', n.defined_names, org):
+                self.check_name(x, 'defined_names', org)
+            for x in call('Name.infer', n.infer, org):
+                self.check_name(x, 'Name.infer', org)
+            for x in call('Name.goto', n.goto, org):
+                self.check_name(x, 'Name.goto', org)
+        # 3. get_context on NAME tokens
+        toks = [t for t in model.toks if t.type == tokenize.NAME]
+        if len(toks) > limits['tokens']:
+            toks = rng.sample(toks, limits['tokens'])
+        for t in toks:
+            cols = [t.start[1]]
+            if len(t.string) > 1 and rng.random() < 0.3:
+                cols.append(t.start[1] + rng.randrange(1, len(t.string)))
+            for col in cols:
+                self.check_context(s, mi, (t.start[0], t.start[1]), col, t.string)
+        # 4. infer / goto at identifiers
+        idents = [t for t in model.toks if t.type == tokenize.NAME and not keyword.iskeyword(t.string)]
+        if len(idents) > limits['infer']:
+            idents = rng.sample(idents, limits['infer'])
+        for t in idents:
+            org = (mi.rel, t.string, t.start)
+            for x in call('infer', lambda: s.infer(*t.start), org):
+                self.check_name(x, 'infer', org)
+            for x in call('goto', lambda: s.goto(*t.start, follow_imports=True), org):
+                self.check_name(x, 'goto', org)
+        # 5. completions after dots
+        dots = [model.toks[i + 1] for i, t in enumerate(model.toks[:-1])
+                if t.type == tokenize.OP and t.string == '.' and model.toks[i + 1].type == tokenize.NAME]
+        if len(dots) > limits['complete']:
+            dots = rng.sample(dots, limits['complete'])
+        for t in dots:
+            org = (mi.rel, '.' + t.string, t.start)
+            for x in call('complete', lambda: s.complete(*t.start), org):
+                self.check_name(x, 'complete', org)
+        # 6. references of definitions
+        dd = list(model.defs)
+        if len(dd) > limits['references']:
+            dd = rng.sample(dd, limits['references'])
+        for d in dd:
+            org = (mi.rel, d.name, d.name_pos)
+            for x in call('get_references', lambda: s.get_references(*d.name_pos, scope='file'), org):
+                try:
+                    isdef = x.is_definition()
+                except Exception:
+                    self.route_errors += 1
+                    continue
+                if isdef:
+                    self.check_name(x, 'get_references', org)
+
+    def check_context(self, s, mi, tokpos, col, tokstr):
+        model = mi.model
+        pos = (tokpos[0], col)
+        self.evaluations += 1
+        chain = model.body_chain(tokpos)
+        strict = chain[-1] if chain else None
+        hd = model.header_of(tokpos)
+        pclass = model.position_class(pos)
+        inp = repr((mi.rel, tokstr, pos[0], pos[1]))
+        kind = 'ctx/%s/%s' % (pclass, 'header' if hd else 'body')
+        if chain:
+            self.nontrivial += 1
+        try:
+            ctx = s.get_context(pos[0], pos[1])
+            ctype = ctx.type
+            if ctype == 'module':
+                got = None
+                gotname = None
+            else:
+                got = (ctx.line, ctx.column)
+                gotname = ctx.name
+            accepted = [strict.name_pos if strict else None]
+            if hd is not None:
+                accepted.append(hd.name_pos)
+            ok = got in accepted
+            if ok and got is not None:
+                dd = model.by_name_pos[got]
+                if (ctype == 'class') != (dd.kind == 'class'):
+                    ok = False
+            if ok and got is None and self.modinfo_of(ctx) is not mi:
+                ok = False
+            if not ok:
+                self.add(L_CTX + CLASS_SUFFIX[pclass], kind, inp,
+                         'got %r want %r' % (gotname, strict.name if strict else None)
+                         + ' (got type %r at %r, want the definition at %r%s)'
+                         % (ctype, got, accepted[0], ' or the one whose header this is, %r' % (accepted[1],)
+                            if hd else ''))
+        except Exception:
+            self.raised(L_CTX_RAISED, kind, repr((mi.rel, pos[0], pos[1])))
+            return
+        # the Name that get_context returned denotes a definition: same invariant
+        self.check_name(ctx, 'get_context', (mi.rel, tokstr, pos))
+
+
+# ----------------------------------------------------------------------------------------------------------------------
+# tasks (each runs in a worker process)
+def _init_worker(tmp):
+    import jedi
+    d = tempfile.mkdtemp(prefix='w%d_' % os.getpid(), dir=tmp)
+    jedi.settings.cache_directory = os.path.join(d, 'cache')
+    os.environ['C18_WORKER_TMP'] = d
+
+
+def write_project(root, files, dirs):
+    for rel, code in files:
+        p = os.path.join(root, rel)
+        os.makedirs(os.path.dirname(p), exist_ok=True)
+        with open(p, 'w', encoding='utf8') as f:
+            f.write(code)
+    for d, kind in dirs.items():
+        os.makedirs(os.path.join(root, d), exist_ok=True)
+        if kind == 'regular':
+            ini = os.path.join(root, d, '__init__.py')
+            if not os.path.exists(ini):
+                open(ini, 'w').close()
+
+
+def limits_for(tier, generated):
+    if generated:
+        if tier == 'quick':
+            return {'names': 400, 'derived': 25, 'tokens': 700, 'infer': 70, 'complete': 6, 'references': 5}
+        return {'names': 2000, 'derived': 80, 'tokens': 3000, 'infer': 250, 'complete': 25, 'references': 20}
+    if tier == 'quick':
+        return {'names': 500, 'derived': 15, 'tokens': 800, 'infer': 0, 'complete': 0, 'references': 0}
+    return {'names': 4000, 'derived': 60, 'tokens': 5000, 'infer': 40, 'complete': 0, 'references': 5}
+
+
+def gen_project(rng, tier):
+    nmods = rng.choice([3, 4, 5])
+    rels, dirs = gen_layout(rng, nmods)
+    # __init__ modules first (they import nothing), the others may import earlier ones
+    order = sorted(range(len(rels)), key=lambda i: (not rels[i].endswith('__init__.py'), i))
+    files = []
+    refs = {}
+    exports = []
+    for i in order:
+        rel = rels[i]
+        imps = []
+        if not rel.endswith('__init__.py') and exports:
+            for dotted, rel2, ex in rng.sample(exports, min(len(exports), rng.choice([0, 1, 1, 2]))):
+                relform = None
+                if os.path.dirname(rel2) == os.path.dirname(rel) and os.path.dirname(rel) \
+                        and not rel2.endswith('__init__.py'):
+                    relform = ('.', os.path.basename(rel2)[:-3])
+                imps.append((dotted, relform, ex))
+        g = ProgGen(rng, imps, rng.choice([6, 10, 16]) if tier == 'quick' else rng.choice([8, 16, 30]))
+        code = g.module()
+        files.append((rel, code))
+        refs[rel] = g.refs
+        if not rel.endswith('__init__.py'):
+            exports.append((dotted_of(rel), rel, g.export()))
+    return files, dirs, refs
+
+
+def task_generated(args):
+    idx, seed, tier, fixed = args
+    import jedi
+    rng = random.Random(seed * 1000003 + idx)
+    root = tempfile.mkdtemp(prefix='proj%d_' % idx, dir=os.environ['C18_WORKER_TMP'])
+    try:
+        if fixed:
+            files = list(MODULES)
+            dirs = {'pkg': 'regular', 'pkg/posix': 'regular'}
+            refs = {rel: [] for rel, _ in files}
+        else:
+            files, dirs, refs = gen_project(rng, tier)
+        write_project(root, files, dirs)
+        models = {}
+        req = []
+        for rel, code in files:
+            try:
+                models[rel] = Model(code)
+            except SyntaxError:
+                raise HarnessError('harness: generated program is not valid python:\n%s\n%s'
+                                   % (traceback.format_exc(limit=1), code))
+            req.append({'rel': rel, 'dotted': dotted_of(rel), 'path': os.path.join(root, rel), 'must_import': True,
+                        'paths': models[rel].access_paths(), 'refs': refs[rel]})
+        rt = run_oracle(root, req)
+        mods = [ModInfo(rel, os.path.join(root, rel), code, models[rel], rt[rel]) for rel, code in files]
+        project = jedi.Project(root)
+        ck = Checker(jedi, mods, rng, generated=True)
+        basenames = [os.path.basename(d) for d in dirs]
+        ck.dup_dirs = {b for b in basenames if basenames.count(b) > 1}
+        lim = limits_for(tier, True)
+        for mi in mods:
+            ck.check_module(mi, project, lim)
+            # direct run-time oracle for the reference variables: refN = <expr>; infer at the end of the expression
+            check_refs(ck, jedi, mi, project)
+        return {'evaluations': ck.evaluations, 'nontrivial': ck.nontrivial, 'violations': ck.violations,
+                'sample': [rel for rel, _ in files], 'skipped': ck.skipped_fullname,
+                'ignored': [ck.route_errors, ck.sandbox_artefacts, ck.unidentified],
+                'size': sum(len(c) for _, c in files)}
+    finally:
+        shutil.rmtree(root, ignore_errors=True)
+
+
+def check_refs(ck, jedi, mi, project):
+    """ref = <expr> lines at module level: the run-time value of ref is a function/class; every function/class Name that
+    infer() gives for the expression and that has the same simple name must carry the run-time __module__.__qualname__"""
+    if not mi.rt or not mi.rt.get('refs'):
+        return
+    s = jedi.Script(mi.code, path=mi.path, project=project)
+    lines = mi.code.split('\n')
+    for i, line in enumerate(lines):
+        if not line.startswith('ref') or ' = ' not in line:
+            continue
+        var = line.split(' = ')[0]
+        fact = mi.rt['refs'].get(var)
+        if fact is None:
+            continue
+        kind, module, qualname = fact
+        want = module + '.' + qualname
+        ck.evaluations += 1
+        ck.nontrivial += 1
+        inp = repr((mi.rel, line))
+        try:
+            res = s.infer(i + 1, len(line))
+            for x in res:
+                if x.type in ('function', 'class', 'property') and ck.modinfo_of(x) is not None \
+                        and x.name == qualname.rsplit('.', 1)[-1]:
+                    d = ck.modinfo_of(x).model.by_name_pos.get((x.line, x.column))
+                    if d is None or not all(c.kind == 'class' for c in d.chain):
+                        continue
+                    if [c.name for c in d.chain] + [d.name] != qualname.split('.'):
+                        # jedi resolved the expression to another definition than the interpreter: not this property
+                        continue
+                    if x.full_name != want:
+                        ck.add(L_FULL + ' [Name from infer on an expression evaluated at run time]',
+                               'refs/' + kind, inp, 'got %r want %r' % (x.full_name, want))
+        except Exception:
+            ck.route_errors += 1
+
+
+def task_corpus(args):
+    idx, seed, tier, repo, rel, importable = args
+    import jedi
+    rng = random.Random(seed * 1000003 + 7919 * idx + 17)
+    path = os.path.join(repo, rel)
+    with open(path, encoding='utf8') as f:
+        code = f.read()
+    model = Model(code)
+    rt = None
+    if importable:
+        r = run_oracle(repo, [{'rel': rel, 'dotted': dotted_of(rel), 'path': path, 'must_import': False,
+                               'paths': model.access_paths(), 'refs': []}])[rel]
+        if 'error' not in r:
+            rt = r
+    mi = ModInfo(rel, path, code, model, rt)
+    ck = Checker(jedi, [mi], rng, generated=False)
+    ck.check_module(mi, jedi.Project(repo), limits_for(tier, False))
+    return {'evaluations': ck.evaluations, 'nontrivial': ck.nontrivial, 'violations': ck.violations,
+            'sample': [rel], 'skipped': ck.skipped_fullname,
+            'ignored': [ck.route_errors, ck.sandbox_artefacts, ck.unidentified], 'size': len(code)}
+
+
+def corpus_files(repo):
+    out = []
+    for p in sorted(glob.glob(os.path.join(repo, 'jedi', '**', '*.py'), recursive=True)):
+        rel = os.path.relpath(p, repo)
+        if 'third_party' in rel.split(os.sep):
+            continue
+        out.append((rel, not rel.endswith('__main__.py')))
+    for p in sorted(glob.glob(os.path.join(repo, 'test', 'completion', '*.py'))):
+        out.append((os.path.relpath(p, repo), False))
+    good = []
+    for rel, imp in out:
+        try:
+            with open(os.path.join(repo, rel), encoding='utf8') as f:
+                code = f.read()
+            if '\r' in code or '\f' in code or not code.strip():
+                continue
+            ast.parse(code)
+        except (SyntaxError, ValueError, UnicodeDecodeError):
+            continue
+        good.append((rel, imp))
+    return good
+
+
+def _dispatch(job):
+    kind, args = job
+    try:
+        return (task_generated if kind == 'gen' else task_corpus)(args)
+    except Exception:
+        return {'harness_error': '%s %r\n%s' % (kind, args[:3], traceback.format_exc())}
 
 
 def run(repo, seed, tier):
-    import jedi
-    violations = []
-    evaluations = 0
-    root = tempfile.mkdtemp(prefix='nest_', dir=os.environ['STANDIN_TMP'])
+    tmp = os.environ['STANDIN_TMP']
+    rng = random.Random(seed)
+    n_projects = 32 if tier == 'quick' else 300
+    corpus = corpus_files(repo)
+    n_corpus = 8 if tier == 'quick' else len(corpus)
+    chosen = rng.sample(corpus, min(n_corpus, len(corpus)))
+    # the long tasks (big corpus files) first
+    chosen.sort(key=lambda c: (-os.path.getsize(os.path.join(repo, c[0])), c[0]))
+    jobs = [('corpus', (i, seed, tier, repo, rel, imp)) for i, (rel, imp) in enumerate(chosen)]
+    jobs += [('gen', (0, seed, tier, True))]
+    jobs += [('gen', (i, seed, tier, False)) for i in range(1, n_projects + 1)]
+    nproc = max(2, min(16, os.cpu_count() or 2))
+    ctx = multiprocessing.get_context('fork')
+    pool = ctx.Pool(nproc, initializer=_init_worker, initargs=(tmp,))
     try:
-        for rel, code in MODULES:
-            p = os.path.join(root, rel)
-            os.makedirs(os.path.dirname(p), exist_ok=True)
-            open(p, 'w').write(code)
-            d = os.path.dirname(p)
-            while d != root:
-                open(os.path.join(d, '__init__.py'), 'a').close()
-                d = os.path.dirname(d)
-        project = jedi.Project(root)
-        for rel, code in MODULES:
-            path = os.path.join(root, rel)
-            dotted = rel[:-3].replace('/', '.')
-            s = jedi.Script(code, path=path, project=project)
-            tree, defs, chain, parents = analyse(code)
-            names = {(n.line, n.column): n for n in s.get_names(all_scopes=True, definitions=True)}
-            for d in defs:
-                evaluations += 1
-                pos = name_pos(code, d)
-                n = names.get(pos)
-                if n is None:
-                    violations.append({'label': 'definition not reported by get_names', 'input': repr((rel, d.name, pos)),
-                                       'observed': 'missing'})
-                    continue
-                ch = chain(d)
-                try:
-                    # parent() chain
-                    got = []
-                    cur = n.parent()
-                    while cur is not None and cur.type != 'module':
-                        got.append(cur.name)
-                        cur = cur.parent()
-                    want = [c.name for c in reversed(ch)]
-                    if got != want:
-                        violations.append({'label': 'parent() chain is not the lexically enclosing definitions',
-                                           'input': repr((rel, d.name, pos)), 'observed': 'got %r want %r' % (got, want)})
-                    if all(isinstance(c, ast.ClassDef) for c in ch):
-                        wantfn = '.'.join([dotted] + [c.name for c in ch] + [d.name])
-                        if n.full_name != wantfn:
-                            violations.append({'label': 'full_name is not module path + __qualname__',
-                                               'input': repr((rel, d.name, pos)),
-                                               'observed': 'got %r want %r' % (n.full_name, wantfn)})
-                except Exception:
-                    violations.append({'label': 'parent/full_name raised', 'input': repr((rel, d.name)),
-                                       'observed': traceback.format_exc(limit=3)})
-            # get_context on identifier positions in bodies
-            for node in ast.walk(tree):
-                if not isinstance(node, ast.Name):
-                    continue
-                ch = chain(node)
-                if ch is None:
-                    continue
-                # comprehension scopes: only identifiers outside the first iterable are inside the comprehension;
-                # get_context is about functions/classes, so they count for the enclosing def/class anyway
-                evaluations += 1
-                try:
-                    ctx = s.get_context(node.lineno, node.col_offset)
-                    want = ch[-1].name if ch else None
-                    got = ctx.name if ctx.type != 'module' else None
-                    if got != want:
-                        violations.append({'label': 'get_context is not the innermost enclosing function/class',
-                                           'input': repr((rel, node.id, node.lineno, node.col_offset)),
-                                           'observed': 'got %r want %r' % (got, want)})
-                except Exception:
-                    violations.append({'label': 'get_context raised', 'input': repr((rel, node.lineno, node.col_offset)),
-                                       'observed': traceback.format_exc(limit=3)})
+        results = pool.map(_dispatch, jobs, chunksize=1)
+        pool.close()
     finally:
-        shutil.rmtree(root, ignore_errors=True)
-    seen = {}
-    for v in violations:
-        seen.setdefault(v['label'], []).append(v)
+        pool.terminate()
+        pool.join()
+    errors = [r['harness_error'] for r in results if 'harness_error' in r]
+    if errors:
+        raise HarnessError('harness/oracle failure in %d task(s), first:\n%s' % (len(errors), errors[0]))
+    violations = []
+    counts = {}
+    per_kind = {}
+    evaluations = sum(r['evaluations'] for r in results)
+    nontrivial = sum(r['nontrivial'] for r in results)
+    for r in results:
+        for v in r['violations']:
+            counts[v['label']] = counts.get(v['label'], 0) + 1
+            k = (v['label'], v['kind'])
+            per_kind[k] = per_kind.get(k, 0) + 1
+            if per_kind[k] <= 3:
+                violations.append({'label': v['label'], 'input': v['input'], 'observed': v['observed']})
+    # at most 60, but never drop a label completely
+    if len(violations) > 60:
+        kept, rest, labels = [], [], set()
+        for v in violations:
+            if v['label'] not in labels:
+                labels.add(v['label'])
+                kept.append(v)
+            else:
+                rest.append(v)
+        violations = kept + rest[:max(0, 60 - len(kept))]
     return {'name': 'C18.nesting', 'contract': 'C18.nesting',
-            'evaluations': evaluations, 'distinct_nontrivial': evaluations,
-            'rule': '%d modules in a package (classes nested 3 deep, functions in classes in functions, class-level '
-                    'comprehensions, names spelled like stdlib alias keys); every def/class: parent() chain and full_name '
-                    'vs ast nesting; every identifier in a body: get_context vs innermost enclosing def/class; header '
-                    'positions skipped' % len(MODULES),
-            'samples': [m[0] for m in MODULES], 'violations': violations[:300],
-            'violation_counts': {k: len(v) for k, v in seen.items()}}
+            'evaluations': evaluations, 'distinct_nontrivial': nontrivial,
+            'rule': 'the 2 hand written modules, %d seeded random projects (3-5 generated modules each in random layouts: '
+                    'top level, regular packages, __init__.py, implicit namespace directories, alias-key names; programs '
+                    'with nested classes/functions/async functions/lambdas/comprehensions/decorators/properties/'
+                    'inheritance/cross-module imports, indentation 1-8 or tab, one-line bodies, continuation lines) and '
+                    '%d of %d corpus files of the tree under test. Oracles: ast+tokenize for the nesting (lambdas and '
+                    'comprehensions are transparent; a position in a def/class header may be attributed to the def or '
+                    'to its surrounding scope), a child interpreter importing every module from sys.path=[root] for '
+                    '__name__/__module__/__qualname__. Checked: get_context at NAME tokens (start and interior '
+                    'columns); for every Name denoting a definition of a modelled module, whatever the route '
+                    '(get_names, get_context, parent(), defined_names, Name.infer/goto, infer/goto at identifiers, '
+                    'complete after dots, get_references, infer on module-level reference expressions evaluated at run '
+                    'time): parent() chain == lexical chain ending at the module whose full_name is the imported '
+                    '__name__, and full_name == run-time __module__.__qualname__ for definitions whose enclosing '
+                    'scopes are all classes. Samples per module are drawn with random.Random(seed).sample. Not counted: '
+                    '%d API calls other than get_context/parent()/full_name that raised, %d exceptions caused by the '
+                    'empty typeshed of this sandbox, %d Names whose position is not an identifier of their module.'
+                    % (n_projects, len(chosen), len(corpus), sum(r['ignored'][0] for r in results),
+                       sum(r['ignored'][1] for r in results), sum(r['ignored'][2] for r in results)),
+            'samples': [s for r in results[:4] for s in r['sample']] + [rel for rel, _ in chosen[:4]],
+            'violations': violations,
+            'violation_counts': counts}
